@@ -187,6 +187,43 @@ fn gen_stream(t: &mut Tape, dialect: Dialect, identity: &[String]) -> (Vec<u8>, 
                     out.extend_from_slice(l.as_bytes());
                     out.push(b'\n');
                 }
+                Dialect::Json if kind == Kind::Match && t.chance(1, 6) => {
+                    // a multi-line match (rg --multiline): one record, two lines of text, one
+                    // submatch reaching from a word of the first line into the second
+                    let code2 = {
+                        // (no leading blanks: the second part of the submatch starts at column 0)
+                        let c = text::content(t, &o);
+                        format!("w{}", c.trim_start().replace('\t', " "))
+                    };
+                    let eol = if t.chance(1, 8) { "\r\n" } else { "\n" };
+                    let text = format!("{}{}{}{}", code, eol, code2, eol);
+                    let a = code.rfind(' ').map(|i| i + 1).unwrap_or(0);
+                    let lead2 = code2.chars().take_while(|ch| *ch == '\t' || *ch == ' ').count();
+                    let b2 = code2[lead2..].find(' ').map(|i| lead2 + i).unwrap_or(code2.len());
+                    let b = code.len() + eol.len() + b2;
+                    let mut sub1 = Vec::new();
+                    if a < code.len() {
+                        sub1.push((a, code.len()));
+                    }
+                    let sub2 = vec![(0, b2)];
+                    out.extend_from_slice(
+                        format!(
+                            "{{\"type\":\"match\",\"data\":{{\"path\":{{\"text\":{}}},\"lines\":{{\"text\":{}}},\"line_number\":{},\"absolute_offset\":{},\"submatches\":[{{\"match\":{{\"text\":{}}},\"start\":{},\"end\":{}}}]}}}}\n",
+                            serde_json::to_string(&path).unwrap(),
+                            serde_json::to_string(&text).unwrap(),
+                            ln,
+                            t.below(100000),
+                            serde_json::to_string(&text[a..b]).unwrap(),
+                            a,
+                            b
+                        )
+                        .as_bytes(),
+                    );
+                    hits.push(Hit { path: path.clone(), number: Some(ln), kind, code: code.clone(), submatches: sub1 });
+                    ln += 1;
+                    hits.push(Hit { path: path.clone(), number: Some(ln), kind, code: code2, submatches: sub2 });
+                    continue;
+                }
                 Dialect::Json => {
                     let text = format!("{}{}", code, if t.chance(1, 8) { "\r\n" } else { "\n" });
                     if kind == Kind::Match {
